@@ -42,17 +42,6 @@ Proof.
 Qed.
 
 (* ---------------------------------------------------------------- well-formed options *)
-Definition no_comma (s : str) : bool := forallb (fun b => negb (Byte.eqb b x2c)) s.
-
-(* an anchor rendering contains no comma and is not the text "nil" (RFC3339 renderings satisfy both) *)
-Definition anchor_wf (o : option str) : bool :=
-  match o with None => true | Some s => no_comma s && negb (str_eqb s s_nil) end.
-(* a filter rendering is not the text "<nil>" (a %+v struct rendering starts with an opening brace) *)
-Definition filter_wf (o : option str) : bool :=
-  match o with None => true | Some s => negb (str_eqb s s_pnil) end.
-Definition lo_wf (lo : lopts) : bool :=
-  anchor_wf (lo_lower lo) && anchor_wf (lo_upper lo) && filter_wf (lo_filter lo).
-
 Lemma split_comma : forall a a' r r',
   no_comma a = true -> no_comma a' = true -> a ++ x2c :: r = a' ++ x2c :: r' -> a = a' /\ r = r'.
 Proof.
